@@ -721,6 +721,84 @@ Proof.
   rewrite R3. cbn [bind]. apply Hfin. apply conf_only_trans. exact Hco.
 Qed.
 
+(* ---------- what a well formed 126998 made of ASCII strings leaves behind ---------- *)
+Lemma get_byte_at m idx b r : payload m -> 0 <= idx < mlen m -> from m idx = b :: r -> get_byte m idx = Ok (b, idx + 1) /\ from m (idx + 1) = r.
+Proof.
+  intros Hp Hi Hf. rewrite (from_cons m idx Hp Hi) in Hf. injection Hf as Hb Hr.
+  rewrite get_byte_in by assumption. rewrite Hb. split; [reflexivity|exact Hr].
+Qed.
+
+(* one variable string of the payload at idx: length byte len+2, type ty, body; empty (len = 0) or ASCII *)
+Definition vfield (m:msg) (idx len ty:Z) (body rest:list Z) : Prop :=
+  from m idx = (len + 2) :: ty :: body ++ rest /\ Z.of_nat (length body) = len /\ idx + 2 + len <= mlen m /\ 0 <= idx /\
+  ((len = 0 /\ (ty = 0 \/ ty = 1)) \/ (1 <= len <= 252 /\ ty = 1)).
+
+Lemma firstn_app_le {A} (a b:list A) n : (n <= length a)%nat -> firstn n (a ++ b) = firstn n a.
+Proof. intros H. rewrite firstn_app. replace (n - length a)%nat with 0%nat by lia. cbn [firstn]. apply app_nil_r. Qed.
+
+Lemma gvs_field m idx len ty body rest dest : payload m -> vfield m idx len ty body rest -> (len > 0 -> (0 < length dest)%nat) ->
+  exists d', get_var_str3 m (Z.of_nat (length dest)) dest idx = Ok (true, len, idx + 2 + len, d') /\ length d' = length dest /\
+    (len > 0 -> Z.of_nat (length dest) = len + 1 -> d' = gmap 255 false body ++ [0]).
+Proof.
+  intros Hp (Hf & Hlb & Hfit & Hi & Hkind) Hsz. pose proof Hp as [Hd Hl]. unfold get_var_str3, get_var_str.
+  destruct (get_byte_at m idx _ _ Hp ltac:(lia) Hf) as [E1 Hf1]. rewrite E1. cbn [bind fst snd].
+  destruct (get_byte_at m (idx + 1) _ _ Hp ltac:(lia) Hf1) as [E2 Hf2]. rewrite E2. cbn [bind fst snd].
+  replace (idx + 1 + 1) with (idx + 2) in * by lia.
+  destruct Hkind as [(H0 & Hty)|(Hlen & Hty)].
+  - (* empty *)
+    subst len. destruct (Z.leb_spec (0 + 2) 2); [|lia]. cbn [orb].
+    destruct (Z.eqb_spec (0 + 2) 2); [|lia]. destruct (Z.leb_spec ty 1); [|lia]. cbn [andb].
+    destruct (Z.gtb_spec (Z.of_nat (length dest)) 0).
+    + rewrite wr_ok by lia. cbn [bind]. eexists. split; [f_equal; f_equal; f_equal; lia|]. split; [apply zset_length|lia].
+    + cbn [bind]. eexists. split; [f_equal; f_equal; f_equal; lia|]. split; [reflexivity|lia].
+  - subst ty. destruct (Z.leb_spec (len + 2) 2); [lia|]. destruct (Z.eqb_spec (len + 2) 255); [lia|]. destruct (Z.gtb_spec 1 1); [lia|].
+    destruct (Z.geb_spec (idx + 2) (mlen m)); [lia|]. cbn [orb]. replace (len + 2 - 2) with len by lia.
+    destruct (Z.gtb_spec (len + (idx + 2)) (mlen m)); [lia|].
+    destruct (Z.gtb_spec (Z.of_nat (length dest)) 0); [|specialize (Hsz ltac:(lia)); lia]. cbn [Z.eqb].
+    rewrite (get_str_sized_fits m dest len 255 (idx + 2) Hp ltac:(lia) ltac:(lia) ltac:(lia) ltac:(lia)). cbn [bind].
+    pose proof (gs_out_length m (Z.of_nat (length dest)) len 255 (idx + 2) Hp ltac:(lia) ltac:(lia) ltac:(lia) ltac:(lia)) as Hol.
+    eexists. split; [f_equal; f_equal; f_equal; lia|]. split; [rewrite app_length, repeat_length; lia|].
+    intros _ Hsize. unfold gs_out in *. rewrite Hf2. rewrite Hsize in *. replace (Z.min len (len + 1 - 1)) with len in * by lia.
+    rewrite firstn_app_le by lia. rewrite firstn_all2 by lia.
+    rewrite gmap_length in Hol. replace (length dest - length (gmap 255 false body))%nat with 1%nat; [reflexivity|].
+    rewrite gmap_length. lia.
+Qed.
+
+Lemma cstr_go_gmap : forall body rest, cstr_go (gmap 255 false body ++ 0 :: rest) = Ok (cut 255 body).
+Proof.
+  induction body as [|b body IH]; intros rest; cbn [gmap app cstr_go cut]; [reflexivity|]. cbn [orb].
+  destruct ((b =? 0) || (b =? 255)) eqn:Es.
+  - cbn [Z.eqb]. reflexivity.
+  - apply orb_false_iff in Es. destruct Es as (E0 & _). rewrite E0. rewrite IH. reflexivity.
+Qed.
+
+(* the payload as a list and as the padded message *)
+Lemma from_tmsg m idx : 0 <= idx <= dlen m -> from (tmsg m) idx = skipn (Z.to_nat idx) (pl m) ++ repeat 0 (223 - length (pl m)).
+Proof. intros H. unfold from, tmsg, dlen in *. cbn [mdata]. rewrite skipn_app. replace (Z.to_nat idx - length (pl m))%nat with 0%nat by lia. reflexivity. Qed.
+
+(* s_var on the list = a field of the message *)
+Lemma s_var_field m idx text r' : 0 <= idx <= dlen m -> s_var (skipn (Z.to_nat idx) (pl m)) = Some (text, r') ->
+  exists len ty body rest, vfield (tmsg m) idx len ty body rest /\ text = cut 255 body /\ r' = skipn (Z.to_nat (idx + 2 + len)) (pl m) /\ idx + 2 + len <= dlen m.
+Proof.
+  intros Hi Hs. pose proof (from_tmsg m idx Hi) as Hfrom. set (pad := repeat 0 (223 - length (pl m))) in *.
+  assert (Hlen : Z.of_nat (length (skipn (Z.to_nat idx) (pl m))) = dlen m - idx) by (rewrite skipn_length; unfold dlen; lia).
+  destruct (skipn (Z.to_nat idx) (pl m)) as [|l [|t r0]] eqn:Er; cbn [s_var] in Hs; try discriminate. cbn [length] in Hlen.
+  assert (Hskip : forall n, (n <= length r0)%nat -> skipn n r0 = skipn (Z.to_nat (idx + 2 + Z.of_nat n)) (pl m)).
+  { intros n Hn. replace (Z.to_nat (idx + 2 + Z.of_nat n)) with (Z.to_nat idx + (2 + n))%nat by lia. rewrite <- skipn_add, Er. reflexivity. }
+  destruct ((3 <=? l) && (l <? 255) && (t =? 1) && (l - 2 <=? Z.of_nat (length r0))) eqn:Ea.
+  - apply andb_true_iff in Ea. destruct Ea as (Ea & E4). apply andb_true_iff in Ea. destruct Ea as (Ea & E3). apply andb_true_iff in Ea. destruct Ea as (E1 & E2).
+    apply Z.leb_le in E1, E4. apply Z.ltb_lt in E2. apply Z.eqb_eq in E3. injection Hs as <- <-.
+    exists (l - 2), t, (firstn (Z.to_nat (l - 2)) r0), (skipn (Z.to_nat (l - 2)) r0 ++ pad).
+    split; [|split; [rewrite cut_text; reflexivity|split; [rewrite (Hskip (Z.to_nat (l - 2))) by lia; f_equal; lia|lia]]].
+    split; [rewrite Hfrom; cbn [app]; replace (l - 2 + 2) with l by lia; rewrite app_assoc, firstn_skipn; reflexivity|].
+    split; [rewrite firstn_length; lia|]. split; [unfold tmsg; cbn [mlen]; lia|]. split; [lia|]. right. lia.
+  - destruct ((l =? 2) && ((t =? 0) || (t =? 1))) eqn:Eb; [|discriminate]. apply andb_true_iff in Eb. destruct Eb as (E1 & E2).
+    apply Z.eqb_eq in E1. apply orb_true_iff in E2. injection Hs as <- <-.
+    exists 0, t, [], (r0 ++ pad). split; [|split; [reflexivity|split; [rewrite <- (Hskip 0%nat) by lia; reflexivity|lia]]].
+    split; [rewrite Hfrom; subst l; reflexivity|]. split; [reflexivity|]. split; [unfold tmsg; cbn [mlen]; lia|]. split; [lia|].
+    left. split; [reflexivity|]. destruct E2 as [E|E]; apply Z.eqb_eq in E; auto.
+Qed.
+
 (* ---------- HandleProductInformation ---------- *)
 Lemma handle_prod_ok m st s : WF st -> b_src m = Z.of_nat s -> (s < 254)%nat ->
   exists st', handle_prod m st = Ok st' /\ WF st' /\ maxdev st' = maxdev st /\
